@@ -186,3 +186,55 @@ pub fn rewrite_server_port(c: &mut [Frame], new: u16) {
         else if f[o + 2..o + 4] == old { f[o + 2..o + 4].copy_from_slice(&new.to_be_bytes()); }
     }
 }
+
+// ---- HTTP: per-packet tokens as harness/c09 prints them (EC09 / EC07 kind H) ----
+fn render_headers(hs: &[huginn_net_http::http_common::HttpHeader]) -> String {
+    hs.iter().map(|h| format!("{}={}", hex(h.name.as_bytes()), hex(h.value.as_deref().unwrap_or("").as_bytes()))).collect::<Vec<_>>().join(",")
+}
+fn hver(v: &huginn_net_http::http::Version) -> &'static str {
+    use huginn_net_http::http::Version;
+    match v { Version::V10 => "10", Version::V11 => "11", Version::V20 => "20", Version::V30 => "30", _ => "any" }
+}
+pub fn http_token(r: &Result<huginn_net_http::HttpAnalysisResult, huginn_net_http::HuginnNetHttpError>) -> String {
+    match r {
+        Err(_) => "ERR".to_string(),
+        Ok(a) => match (&a.http_request, &a.http_response) {
+            (None, None) => "-".to_string(),
+            (Some(q), None) => format!("Q.{}.{}.{}.{}", hex(q.sig.method.as_deref().unwrap_or("").as_bytes()),
+                                       hex(q.sig.uri.as_deref().unwrap_or("").as_bytes()), hver(&q.sig.matching.version), render_headers(&q.sig.headers)),
+            (None, Some(p)) => format!("R.{}.{}.{}", hver(&p.sig.matching.version), p.sig.status_code.unwrap_or(0), render_headers(&p.sig.headers)),
+            (Some(_), Some(_)) => "BOTH".to_string(),
+        },
+    }
+}
+pub fn run_http(cap: usize, evs: &[Ev]) -> String {
+    use huginn_net_http::packet_parser::{parse_packet, IpPacket};
+    let mut fl: TtlCache<huginn_net_http::http_process::FlowKey, huginn_net_http::http_process::TcpFlow> = TtlCache::new(cap);
+    let pr = huginn_net_http::http_process::HttpProcessors::new();
+    let mut out = Vec::new();
+    for (_, _, f) in evs {
+        let r = match parse_packet(f) {
+            IpPacket::Ipv4(p) => huginn_net_http::process::process_ipv4_packet(&p, &mut fl, &pr, None),
+            IpPacket::Ipv6(p) => huginn_net_http::process::process_ipv6_packet(&p, &mut fl, &pr, None),
+            IpPacket::None => Ok(huginn_net_http::HttpAnalysisResult { http_request: None, http_response: None }), // lib.rs process_packet
+        };
+        out.push(http_token(&r));
+    }
+    out.join(";")
+}
+/// changes that keep every TCP payload byte: flags / sequence number / window bits, IP header fields before the
+/// addresses, or a truncated frame (kind H stays inside the recogniser's ASCII domain)
+pub fn mutate_headers(r: &mut Rng, f: &mut Vec<u8>) {
+    if f.len() < 54 { return; }
+    let v6 = f[12] == 0x86;
+    let ip = 14; let tcp = if v6 { 54 } else { 34 };
+    if f.len() < tcp + 20 { return; }
+    match r.below(6) {
+        0 => { let n = r.range(14, f.len() as u64) as usize; f.truncate(n); }
+        1 => { let hi = if v6 { ip + 8 } else { ip + 12 }; let i = r.range(ip as u64, hi as u64 - 1) as usize; f[i] ^= 1 << r.below(8); }
+        2 => { f[tcp + 13] ^= *r.pick(&[0x01u8, 0x02, 0x04, 0x10, 0x08]); }                    // FIN / SYN / RST / ACK / PSH
+        3 => { let i = tcp + 4 + r.below(4) as usize; f[i] ^= 1 << r.below(8); }               // sequence number
+        4 => { f[tcp + 13] = *r.pick(&[0x02u8, 0x12, 0x11, 0x14, 0x04, 0x03, 0x00]); }
+        _ => { let i = tcp + 14 + r.below(2) as usize; f[i] ^= 1 << r.below(8); }              // window
+    }
+}
